@@ -51,12 +51,8 @@ func c09Specs() []c09Spec {
 	mem := sys.StoreSpec{Backend: "mem"}
 	file := sys.StoreSpec{Backend: "file"}
 	return []c09Spec{
-		{ID: "S1-mem-maxkb-add-remove-add", Store: memKB, Init: []c09Op{add(m1)},
-			Threads: [][]c09Op{{add(m1)}, {{Kind: "remove", MB: m1, Ref: "init1"}}, {add(m1)}}, Bound: [2]int{2, 3}},
 		{ID: "S2-mem-maxkb-add-purge", Store: memKB, Init: []c09Op{add(m1)},
 			Threads: [][]c09Op{{add(m1), {Kind: "list", MB: m1}}, {{Kind: "purge", MB: m1}}}, Bound: [2]int{2, 4}},
-		{ID: "S3-mem-cap1-maxkb-add-add", Store: sys.StoreSpec{Backend: "mem", Cap: 1, MaxKB: 1}, Init: []c09Op{{Kind: "add", MB: m1, Size: 400}},
-			Threads: [][]c09Op{{{Kind: "add", MB: m1, Size: 400}}, {{Kind: "add", MB: m2, Size: 400}}, {{Kind: "add", MB: m1, Size: 300}}}, Bound: [2]int{1, 2}, NoLin: true, LimitB: 1024},
 		{ID: "S4-mem-add-list-seen", Store: mem, Init: []c09Op{add(m1)},
 			Threads: [][]c09Op{{add(m1)}, {{Kind: "list", MB: m1}, {Kind: "get", MB: m1, Ref: "latest"}}, {{Kind: "seen", MB: m1, Ref: "init1"}, {Kind: "remove", MB: m1, Ref: "init1"}}}, Bound: [2]int{2, 3}},
 		{ID: "S5-mem-add-add-visitremove", Store: mem, Init: []c09Op{add(m1), add(m2)},
@@ -69,9 +65,23 @@ func c09Specs() []c09Spec {
 			Threads: [][]c09Op{{add(m1)}, {add(m1)}, {{Kind: "list", MB: m1}}}, Bound: [2]int{2, 3}, NoLin: true},
 		{ID: "S9-file-visit-vs-remove-last", Store: file, Init: []c09Op{add(m1), add(m2)},
 			Threads: [][]c09Op{{{Kind: "visitremove", MB: "none"}}, {{Kind: "remove", MB: m1, Ref: "init1"}}, {{Kind: "remove", MB: m2, Ref: "init2"}}}, Bound: [2]int{2, 3}},
-		{ID: "S10-mem-maxkb-add-getlatest-remove", Store: memKB, Init: []c09Op{add(m1)},
-			Threads: [][]c09Op{{add(m1)}, {{Kind: "get", MB: m1, Ref: "latest"}}, {{Kind: "remove", MB: m1, Ref: "init1"}}}, Bound: [2]int{2, 3}},
+		{ID: "S12-file-add-add-list-same-mailbox", Store: file, Init: []c09Op{add(m1)},
+			Threads: [][]c09Op{{add(m1)}, {add(m1)}, {{Kind: "list", MB: m1}}}, Bound: [2]int{2, 3}},
+		{ID: "S13-mem-add-add-list-same-mailbox", Store: mem, Init: []c09Op{add(m1)},
+			Threads: [][]c09Op{{add(m1)}, {add(m1)}, {{Kind: "list", MB: m1}}}, Bound: [2]int{2, 3}},
+		{ID: "S14-mem-fresh-mailbox-add-add-list", Store: mem, Init: []c09Op{add(m2)},
+			Threads: [][]c09Op{{add(m1)}, {add(m1)}, {{Kind: "list", MB: m1}}}, Bound: [2]int{2, 3}},
+		{ID: "S15-file-fresh-mailbox-add-add-get", Store: file, Init: []c09Op{add(m2)},
+			Threads: [][]c09Op{{add(m1)}, {add(m1)}, {{Kind: "get", MB: m1, Ref: "latest"}}}, Bound: [2]int{2, 3}},
 		{ID: "S11-file-add-getlatest-remove", Store: file, Init: []c09Op{add(m1)},
+			Threads: [][]c09Op{{add(m1)}, {{Kind: "get", MB: m1, Ref: "latest"}}, {{Kind: "remove", MB: m1, Ref: "init1"}}}, Bound: [2]int{2, 3}},
+		{ID: "S3-mem-cap1-maxkb-add-add", Store: sys.StoreSpec{Backend: "mem", Cap: 1, MaxKB: 1}, Init: []c09Op{{Kind: "add", MB: m1, Size: 400}},
+			Threads: [][]c09Op{{{Kind: "add", MB: m1, Size: 400}}, {{Kind: "add", MB: m2, Size: 400}}, {{Kind: "add", MB: m1, Size: 300}}}, Bound: [2]int{1, 2}, NoLin: true, LimitB: 1024},
+		{ID: "S1-mem-maxkb-add-remove-add", Store: memKB, Init: []c09Op{add(m1)},
+			Threads: [][]c09Op{{add(m1)}, {{Kind: "remove", MB: m1, Ref: "init1"}}, {add(m1)}}, Bound: [2]int{2, 3}},
+		{ID: "S16-mem-maxkb-fresh-mailbox-add-purge-add", Store: memKB, Init: nil,
+			Threads: [][]c09Op{{add(m1)}, {{Kind: "purge", MB: m1}}, {add(m1)}}, Bound: [2]int{2, 3}},
+		{ID: "S10-mem-maxkb-add-getlatest-remove", Store: memKB, Init: []c09Op{add(m1)},
 			Threads: [][]c09Op{{add(m1)}, {{Kind: "get", MB: m1, Ref: "latest"}}, {{Kind: "remove", MB: m1, Ref: "init1"}}}, Bound: [2]int{2, 3}},
 	}
 }
